@@ -570,7 +570,7 @@ def scenario_network(rng, name, variant=0):
         # time control / reopened later) must NOT cut anything off; both members closed cuts J1, J2 off while J1's leak is on.
         v = variant % 6
         anti1, anti2 = (v % 2 == 0), (v % 3 != 1)
-        opts = _opts(rng, demand_model=rng.choice(["DD", "DD", "PDD"]))
+        opts = _opts(rng, demand_model=("PDD" if v in (1, 3) else "DD"))
         hyd = opts["hydraulic_timestep"]
         opts["duration"] = 5 * hyd
         nodes = [{"name": "R0", "type": "reservoir", "head": _r(rng, 50, 70, 1), "head_pattern": None},
